@@ -188,6 +188,24 @@ BASE_R = {
     "x.yaml": "m: rootx\nn: {p: 1}\n",
     "a/x.yaml": "m: subx\nn: {p: 2}\n",
 }
+# list/set merging pair: only the LATER file is edited (stale elements must not come out of the cache)
+BASE_L = {
+    "top.yaml": "'*': [a, b]\n",
+    "a.yaml": "l: [1, 2]\nst: !!set {1: null}\nd: {q: [1]}\ninclude: [c]\n",
+    "b.yaml": "l: [2, 3]\nst: !!set {2: null}\nd: {q: [5]}\n",
+    "c.yaml": "l: [9]\n",
+}
+EDITS_L = [
+    ("edit", "b.yaml", "l: [4]\nd: {q: [6]}\n"),
+    ("edit", "b.yaml", "l: [7]\nst: !!set {3: null}\n"),
+    ("edit", "c.yaml", "l: [8]\nst: !!set {4: null}\n"),
+    ("edit", "a.yaml", "l: [1]\n"),
+    ("delete", "c.yaml"),
+]
+# a data file that ends in a block scalar: trailing line breaks are data (|, |+, >), nothing else changes
+BLOCK_TEXTS = ["k: |\n  a", "k: |\n  a\n", "k: |\n  a\n\n", "k: |+\n  a\n", "k: |+\n  a\n\n", "k: |+\n  a\n\n\n",
+               "k: >\n  a", "k: >\n  a\n", "k: >+\n  a\n\n", "k: |\n  a\n  \n", "k: a", "k: a\n", "k: a\n\n\n", "k: a \n"]
+BASE_B = {"top.yaml": "'*': [f, g]\n", "f.yaml": BLOCK_TEXTS[0], "g.yaml": "m: 1\n"}
 EDITS = [
     ("edit", "a.yaml", "k: 4\n"),
     ("edit", "a.yaml", "m: 1\ninclude: [d.x]\nk: 1\n"),
@@ -226,7 +244,8 @@ class C12(Check):
                  "generated edit histories")
     rule = ("case = (base tree of 4 files with/without templates, history of edit/delete/create/swap file<->init/"
             "set-preceding/get ops, cache_size in {0,1,2,64}, engine on/off); exhaustive: every pair of mutations each "
-            "followed by gets for two systems (three base trees: plain, templated, and one where a non-leaf file with a relative "
+            "followed by gets for two systems (base trees: plain, templated, a list/set-merging pair with merge flags on whose later file is edited, a file ending in a "
+            "block scalar whose trailing line breaks alone change, and one where a non-leaf file with a relative "
             "include is reached twice with a conflicting piece in between and can be swapped to init.yaml); random histories up to 10 ops incl. random trees; the D13 witness; "
             "every returned tree is scribbled over by the caller; non-trivial = history with >= 2 gets and >= 1 mutation; "
             "distinct by full case")
@@ -264,6 +283,22 @@ class C12(Check):
             for cs in ((rng.choice((1, 2, 64)),) if tier == "quick" else (1, 64)):
                 ops = [("get", "s1"), ("get", "s2"), m1, ("get", "s1"), ("get", "s2"), m2, ("get", "s2"), ("get", "s1")]
                 yield {"base": BASE_R, "ops": ops, "cache_size": cs, "engine": False, "ml": False, "ms": True, "allow_empty": False}
+        # merge flags on, later file of a list/set-merging pair edited
+        lpairs = list(itertools.product(EDITS_L, repeat=2))
+        for m1, m2 in (lpairs[:6] + rng.sample(lpairs, 4) if tier == "quick" else lpairs):
+            for ml, ms in (((True, True),) if tier == "quick" else ((True, True), (True, False), (False, True))):
+                for cs in ((rng.choice((1, 64)),) if tier == "quick" else (1, 64)):
+                    ops = [("get", "s1"), m1, ("get", "s1"), ("get", "s2"), m2, ("get", "s1"), ("get", "s1")]
+                    yield {"base": BASE_L, "ops": ops, "cache_size": cs, "engine": False, "ml": ml, "ms": ms, "allow_empty": False}
+        # only the trailing line breaks after a final block scalar change
+        for engine in (False, True):
+            for i, t1 in enumerate(BLOCK_TEXTS):
+                others = BLOCK_TEXTS if tier != "quick" else [BLOCK_TEXTS[(i + 1) % len(BLOCK_TEXTS)], BLOCK_TEXTS[(i + 2) % len(BLOCK_TEXTS)]]
+                for t2 in others:
+                    if t1 == t2:
+                        continue
+                    ops = [("edit", "f.yaml", t1), ("get", "s1"), ("edit", "f.yaml", t2), ("get", "s1"), ("edit", "f.yaml", t1), ("get", "s1")]
+                    yield {"base": BASE_B, "ops": ops, "cache_size": 64, "engine": engine, "ml": False, "ms": True, "allow_empty": False}
         n = 160 if tier == "quick" else 4000
         for _ in range(n):
             engine = rng.random() < 0.5
